@@ -16,6 +16,7 @@ fn base(profile: &str, seed: u64, monitors: &[&str]) -> Params {
         linger_us: 200_000,
         knobs: BTreeMap::new(),
         monitors: monitors.iter().map(|s| s.to_string()).collect(),
+        targeted: vec![],
     }
 }
 
@@ -50,6 +51,15 @@ fn cap_flow(f: &mut FlowPlan, window: u64, rtts: u64) {
     if f.len > 20_000 && f.chunk_hi < 64 {
         f.chunk_lo = 64;
         f.chunk_hi = 2000;
+    }
+    // flush() waits a round trip and gaps are application think time: with tiny chunks they
+    // would make the *application* (not the transport) take thousands of round trips
+    if f.flush || f.gap_every > 0 {
+        let min_chunk = (f.len / 300) as usize + 1;
+        if f.chunk_lo < min_chunk {
+            f.chunk_lo = min_chunk;
+            f.chunk_hi = f.chunk_hi.max(min_chunk * 2);
+        }
     }
 }
 
@@ -125,9 +135,275 @@ pub fn gen_general(profile: &str, seed: u64, monitors: &[&str], o: GenOpts) -> P
     p
 }
 
-pub fn make(profile: &str, seed: u64) -> (Params, Extras) {
-    let ex = Extras::default();
+fn must_deliver(seed: u64, handshake_focus: bool) -> Params {
+    let mut r = Rng::new(seed ^ 0xc02);
+    let mut p = gen_general(
+        "C02",
+        seed,
+        &["C02"],
+        GenOpts {
+            max_clients: 2,
+            max_streams: if handshake_focus { 2 } else { 10 },
+            max_len: 200_000,
+            tiny_windows: 2,
+            hostile_app: false,
+            net_intensity: (1, 2),
+            server_streams: true,
+            rtts: 60,
+        },
+    );
+    // finite fault period: squeeze the phases into at most 5 s
+    let total = p.net.phases.last().map(|ph| ph.until_us).unwrap_or(0);
+    let limit = r.range(300_000, 5_000_000);
+    if total > limit {
+        for ph in p.net.phases.iter_mut() {
+            ph.until_us = (ph.until_us as u128 * limit as u128 / total as u128) as u64 + 1;
+        }
+    }
+    let heal = p.net.phases.last().map(|ph| ph.until_us).unwrap_or(0);
+    // whole fault period counted as possible silence: timeouts >= 4x + 2 s
+    let need_ms = (4 * heal / 1000 + 2_000).max(30_000) + 8 * p.net.delay_us / 1000;
+    p.server.idle_timeout_ms = need_ms;
+    p.server.handshake_ms = need_ms;
+    // Retry tokens of the default provider live 1-2 s and an Initial with an expired Retry
+    // token is dropped silently (RFC 9000 8.1.2 permits that): with Retry a fault period of
+    // a few seconds can legitimately end in a handshake timeout, so no must-deliver claim
+    p.retry = false;
+    for c in p.clients.iter_mut() {
+        c.cfg.idle_timeout_ms = need_ms;
+        c.cfg.handshake_ms = need_ms;
+        c.close_code = Some(0);
+        c.abort_at_us = None;
+    }
+    if handshake_focus {
+        // lose handshake datagrams of both directions, so that anti-amplification blocking,
+        // handshake PTOs and HANDSHAKE_DONE retransmission are exercised
+        for d in 0..2 {
+            p.net.drop_idx[d].clear();
+            for _ in 0..r.range(1, 5) {
+                p.net.drop_idx[d].insert(r.range(0, 8));
+            }
+        }
+    }
+    // lose the frames that unblock, a few times in a row
+    use crate::world::{tag, Targeted};
+    for _ in 0..r.range(0, 3) {
+        let tags = *r.pick(&[
+            tag::MAX_DATA,
+            tag::MAX_STREAM_DATA,
+            tag::MAX_STREAMS,
+            tag::BLOCKED,
+            tag::HANDSHAKE_DONE,
+            tag::MAX_DATA | tag::MAX_STREAM_DATA | tag::MAX_STREAMS,
+        ]);
+        p.targeted.push(Targeted {
+            from: None,
+            tags,
+            skip: r.range(0, 4) as u32,
+            drop: r.range(1, 3) as u32,
+        });
+    }
+    p.knobs.insert("c02_mode".into(), 1);
+    p.t_max_us = 900_000_000;
+    p
+}
+
+fn never_recovers(seed: u64, index: u64) -> Params {
+    let mut r = Rng::new(seed ^ 0xc02b);
+    let mut p = gen_general(
+        "C02bh",
+        seed,
+        &["C02"],
+        GenOpts {
+            max_clients: 1,
+            max_streams: 3,
+            max_len: 100_000,
+            tiny_windows: 1,
+            hostile_app: false,
+            net_intensity: (0, 0),
+            server_streams: true,
+            rtts: 40,
+        },
+    );
+    p.net = NetPlan::clean(r.range(1_000, 80_000));
+    let idle = *r.pick(&[3_000u64, 5_000, 10_000, 20_000]);
+    p.server.idle_timeout_ms = idle;
+    p.server.handshake_ms = *r.pick(&[3_000u64, 6_000, 10_000]);
+    p.retry = r.chance(1, 8);
+    for c in p.clients.iter_mut() {
+        c.cfg.idle_timeout_ms = *r.pick(&[3_000u64, 5_000, 10_000, 20_000]);
+        c.cfg.handshake_ms = *r.pick(&[3_000u64, 6_000, 10_000]);
+        c.close_code = Some(0);
+        c.abort_at_us = None;
+        // keep the transfer alive long enough for late blackholes to hit it
+        for s in c.streams.iter_mut() {
+            s.fwd.gap_every = 2;
+            s.fwd.gap_us = 20_000;
+        }
+    }
+    // enumerated blackhole point: after datagram #k of a direction (or of both)
+    const K: u64 = 40;
+    let k = index % K;
+    let d = (index / K) % 4;
+    match d {
+        0 => p.net.blackhole_after[0] = Some(k),
+        1 => p.net.blackhole_after[1] = Some(k),
+        2 => {
+            p.net.blackhole_after[0] = Some(k);
+            p.net.blackhole_after[1] = Some(k);
+        }
+        _ => {
+            // time-based: everything vanishes from a random instant on
+            let t0 = r.range(0, 3_000_000);
+            let mut ph = Phase::clean(t0);
+            p.net.phases.push(ph.clone());
+            ph.until_us = u64::MAX;
+            ph.blackhole = [r.chance(2, 3), r.chance(2, 3)];
+            if ph.blackhole == [false, false] {
+                ph.blackhole = [true, true];
+            }
+            p.net.phases.push(ph);
+        }
+    }
+    // keep simulating until every endpoint had the time to give up
+    let worst = p.server.idle_timeout_ms.max(p.clients[0].cfg.idle_timeout_ms)
+        + p.server.handshake_ms.max(p.clients[0].cfg.handshake_ms);
+    p.linger_us = (2 * worst + 10_000) * 1000;
+    p.knobs.insert("c02_mode".into(), 2);
+    p.knobs.insert("bh_k".into(), k as i64);
+    p.knobs.insert("bh_dir".into(), d as i64);
+    p.t_max_us = 300_000_000;
+    p
+}
+
+/// handshake-centred scenarios for the amplification rules
+fn amplification(seed: u64, index: u64, ex: &mut Extras) -> Params {
+    let mut r = Rng::new(seed ^ 0xc11);
+    let mut p = gen_general(
+        "C11",
+        seed,
+        &["C11"],
+        GenOpts {
+            max_clients: 3,
+            max_streams: 2,
+            max_len: 20_000,
+            tiny_windows: 1,
+            hostile_app: false,
+            net_intensity: (0, 1),
+            server_streams: false,
+            rtts: 40,
+        },
+    );
+    p.net.phases.clear();
+    p.net.drop_idx = [Default::default(), Default::default()];
+    p.retry = r.chance(1, 5);
+    const POS: u64 = 12;
+    match index % 3 {
+        0 => {
+            // enumerated single and double drops of handshake datagram positions
+            let e = index / 3;
+            let dir = (e % 2) as usize;
+            let e = e / 2;
+            let a = e % POS;
+            let b = (e / POS) % (POS + 1);
+            p.net.drop_idx[dir].insert(a);
+            if b < POS {
+                // b == POS means "single drop"
+                p.net.drop_idx[if (e / (POS * (POS + 1))) % 2 == 0 { dir } else { 1 - dir }].insert(b);
+            }
+            p.knobs.insert("c11_enum".into(), 1);
+        }
+        1 => {
+            // random loss / duplication / delay concentrated on the first second, so that
+            // server PTOs fire while it is limited
+            let mut ph = Phase::clean(r.range(200_000, 2_000_000));
+            ph.loss = [r.f64() * 0.6, r.f64() * 0.3];
+            ph.dup = if r.chance(1, 2) { r.f64() * 0.5 } else { 0.0 };
+            ph.far = if r.chance(1, 2) { r.f64() * 0.3 } else { 0.0 };
+            p.net.far_us = p.net.delay_us * r.range(3, 30);
+            p.net.phases.push(ph);
+            if r.chance(1, 4) {
+                // client address changes in the middle of the handshake
+                p.net.rebinds.push((r.range(0, 4 * p.net.delay_us), 0));
+            }
+        }
+        _ => {
+            // datagrams that belong to no connection, fired at the server from raw sockets
+            let n = r.range(4, 24);
+            for _ in 0..n {
+                let at = r.range(0, 600_000);
+                let kind = r.below(6);
+                let len = match r.below(5) {
+                    0 => r.range(1, 40),
+                    1 => r.range(20, 60),
+                    2 => r.range(60, 1199),
+                    3 => r.range(1199, 1201),
+                    _ => r.range(1200, 1500),
+                } as usize;
+                let mut b = vec![0u8; len];
+                r.fill(&mut b);
+                match kind {
+                    0 => {} // garbage
+                    1 | 2 => {
+                        // short header with an unknown connection id
+                        b[0] = 0x40 | (b[0] & 0x3f);
+                    }
+                    3 => {
+                        // long header, unknown version
+                        b[0] = 0xc0 | (b[0] & 0x3f);
+                        if len >= 7 {
+                            b[1..5].copy_from_slice(&[0x1a, 0x2a, 0x3a, 0x4a]);
+                            b[5] = 8; // dcid len
+                            if len > 14 {
+                                b[14] = 8; // scid len
+                            }
+                        }
+                    }
+                    4 => {
+                        // a Version Negotiation packet
+                        b[0] = 0x80 | (b[0] & 0x7f);
+                        if len >= 7 {
+                            b[1..5].copy_from_slice(&[0, 0, 0, 0]);
+                            b[5] = 8;
+                            if len > 14 {
+                                b[14] = 8;
+                            }
+                        }
+                    }
+                    _ => {
+                        // v1 Initial-looking header (often below 1200 bytes)
+                        b[0] = 0xc0 | (b[0] & 0x0f);
+                        if len >= 7 {
+                            b[1..5].copy_from_slice(&[0, 0, 0, 1]);
+                            b[5] = 8;
+                            if len > 14 {
+                                b[14] = 8;
+                            }
+                            if len > 24 {
+                                b[23] = 0; // token length 0
+                            }
+                        }
+                    }
+                }
+                ex.probes.push((at, b));
+            }
+            ex.probes.sort_by_key(|(t, _)| *t);
+            p.knobs.insert("c11_probes".into(), n as i64);
+        }
+    }
+    for c in p.clients.iter_mut() {
+        c.close_code = Some(0);
+    }
+    p.t_max_us = 120_000_000;
+    p
+}
+
+pub fn make(profile: &str, seed: u64, index: u64) -> (Params, Extras) {
+    let mut ex = Extras::default();
     let p = match profile {
+        "C11" => amplification(seed, index, &mut ex),
+        "C02" => must_deliver(seed, index % 4 == 3),
+        "C02bh" => never_recovers(seed, index),
         "smoke" => {
             let mut p = base("smoke", seed, &["C01", "C03", "C08", "C09", "C12"]);
             let mut r = Rng::new(seed);
@@ -260,6 +536,9 @@ pub fn nontrivial_features(profile: &str) -> &'static [&'static str] {
         "C08" => &["loss", "reordered_rx", "gap_rx", "duplicate_rx", "ack_range_evicted"],
         "C09" => &["loss", "pto_probe", "discard_with_outstanding"],
         "C12" => &["retransmission", "resegmented", "reset_sent", "close_sent"],
+        "C02" => &["blocked_stream_credit", "blocked_conn_credit", "blocked_stream_count", "loss", "net_drop", "congestion_event"],
+        "C02bh" => &["net_drop"],
+        "C11" => &["net_drop", "net_dup", "server_at_amplification_limit", "retry_sent", "rebind", "loss"],
         _ => &["loss", "reordered_rx"],
     }
 }
